@@ -69,6 +69,27 @@ def run(ctx):
         ctx.case("met-before", (repr(va), repr(vb), impl.show_expr(e)))
         ans = drv.ask(f"exprcheck {core.elist([va, vb], impl.shape_tokens_of_vertices)} {impl.enc_expr(e)} {core.eshape(R)}")
         ctx.check(ans == "ok", "operands moved in place after an earlier operation: result region differs from the pointwise meaning", {**desc, "witness": ans})
+    # ---- deterministic: a drawing at unit 1/5000 in which a point the library evaluates lies 1.0e-7 from another edge (finding K8), and the same at unit 1
+    from fractions import Fraction as F_
+    K8 = [[("2/625", "1/1000"), ("-2/625", "11/2500"), ("-23/5000", "1/200"), ("-1/200", "-17/5000"), ("-23/5000", "-1/250"), ("1/1000", "-3/5000")],
+          [("1/5000", "3/625"), ("-19/5000", "11/5000"), ("1/1000", "1/1250")],
+          [("1/1000", "29/5000"), ("-7/1000", "3/1250"), ("-17/2500", "9/5000"), ("1/2500", "-1/1000")]]
+    e8 = ("B", "xor", ("B", "and", ("L", 0), ("L", 1)), ("L", 2))
+    for unit in (F_(1), F_(5000)):
+        vss8 = [[(F_(x) * unit, F_(y) * unit) for x, y in vs] for vs in K8]
+        sep = gen.separation(vss8)
+        sig8 = {"family": "near-tolerance", "separation_below_2e-6": sep < 2e-6}
+        desc8 = {"leaves": vss8, "expr": impl.show_expr(e8), "separation": sep}
+        ctx.case("near-tolerance", ("K8", str(unit)))
+        try:
+            with impl.time_limit(60):
+                R8 = impl.eval_expr(e8, [impl.poly(vs) for vs in vss8])
+            ans8 = drv.ask(f"exprcheck {core.elist(vss8, impl.shape_tokens_of_vertices)} {impl.enc_expr(e8)} {core.eshape(R8)}")
+            ctx.check(ans8 == "ok", "result region differs from the pointwise meaning", {**desc8, "witness": ans8}, sig=sig8)
+        except impl.Timeout:
+            ctx.fail("operator did not return within 60 s", desc8, sig=sig8)
+        except Exception as ex:
+            ctx.fail("operator raised on transversal operands", desc8, got=repr(ex), sig=sig8)
     n = 40 if ctx.quick else 600
     for it in range(n):
         k = rng.choice([2, 2, 2, 3, 3, 4, 5])
